@@ -252,6 +252,8 @@ def run(ctx):
         pipeline.run_jobs(exe, jobs)
         for j in jobs:
             ctx.count("rc:%s" % j.res["rc"])
+            if j.res["rc"] not in (0, 70):
+                ctx.log("note (C06 territory): exit %s for %s with %s" % (j.res["rc"], j.name, j.meta["opts"]))
         ok = [j for j in jobs if j.res["rc"] == 0]
         # ---- re-lex input and output
         texts_in = {}
